@@ -394,12 +394,25 @@ func (c *Ctx) validate(f *Family, cases []json.RawMessage, shards int) (*traceOu
 		}
 		ws[s] = &TraceWriter{f: fh, w: bufio.NewWriterSize(fh, 1<<20), path: p}
 	}
+	out := &traceOutcome{mismatch: map[int]string{}, drift: map[int]string{}}
 	for i, cs := range cases {
 		w := ws[i%shards]
 		w.begin(i)
-		f.Run(cs, w)
+		func() {
+			// a panic that escapes the library into the driver (the drivers recover around the calls they
+			// expect to fail; anything else is the library blowing up on an ordinary call) rejects the case
+			defer func() {
+				if p := recover(); p != nil {
+					msg := fmt.Sprint(p)
+					if len(msg) > 160 {
+						msg = msg[:160]
+					}
+					out.mismatch[i] = `{"k":"driver-panic"} // panic escaped into the driver: ` + msg
+				}
+			}()
+			f.Run(cs, w)
+		}()
 	}
-	out := &traceOutcome{mismatch: map[int]string{}, drift: map[int]string{}}
 	for _, w := range ws {
 		w.w.Flush()
 		w.f.Close()
@@ -529,7 +542,12 @@ func (c *Ctx) TraceCheck(f *Family, cases []json.RawMessage) {
 	}
 	sort.Ints(idxs)
 	for _, idx := range idxs {
-		s := f.Sig(cases[idx], out.mismatch[idx])
+		var s string
+		if strings.HasPrefix(out.mismatch[idx], `{"k":"driver-panic"}`) {
+			s = f.Name + "/panic-escaped-into-driver"
+		} else {
+			s = f.Sig(cases[idx], out.mismatch[idx])
+		}
 		bySig[s] = append(bySig[s], idx)
 	}
 	var sigs []string
